@@ -352,8 +352,12 @@ impl Mac {
     pub(crate) fn uplink_aborted(&mut self, fcnt_up: FcntUp) {
         if let State::Joined(session) = &mut self.state
             && session.fcnt_up == fcnt_up
+            && let Response::SessionExpired =
+                session.rx2_complete(&mut self.configuration, &self.region)
         {
-            let _ = session.rx2_complete(&mut self.configuration, &self.region);
+            // The last frame counter has been used and the expiry cannot be reported
+            // through the aborted procedure: end the session so that it is never reused.
+            self.state = State::Unjoined;
         }
     }
 
